@@ -93,6 +93,10 @@ func main() {
 		runWalletSuite(*seed, *n, out, stats)
 	case "views":
 		runViewsSuite(*seed, *n, out, stats)
+	case "lex":
+		runLexSuite(*seed, *n, out, stats)
+	case "settings":
+		runSettingsSuite(*seed, *n, out, stats)
 	case "decay":
 		runDecaySuite(*seed, *n, out, stats)
 	case "catchup":
